@@ -129,6 +129,14 @@ func c10Setup(prm c10Params) func(c *fw.Ctx, name string) explore.Setup {
 							// a Ping whose payload is cut the same way
 							f := peerFrame(k, frame.Frame{Fin: true, Opcode: frame.OpPing, Payload: []byte("pingpayload")})
 							st.p.Send(f[:len(f)-6])
+						case "RF":
+							// a compressed message whose deflate stream ends with a final block early in
+							// a 5000-byte frame; the frame's remainder (which carries no data and is
+							// discarded) stalls 800 bytes before its end, beyond the first read-buffer load
+							fin := (&deflate.Deflater{NoContextTakeover: true}).MessageBFinal([]byte("hello"))
+							pl := append(append([]byte{}, fin...), make([]byte, 5000-len(fin))...)
+							f := peerFrame(k, frame.Frame{Fin: true, Rsv1: true, Opcode: frame.OpText, Payload: pl})
+							st.p.Send(f[:len(f)-800])
 						case "RE":
 							st.p.Send(peerData(k, frame.OpBinary, false, fill(0xD4, 6)))
 							st.p.Send(peerData(k, frame.OpCont, true, nil))
@@ -195,7 +203,7 @@ func c10Setup(prm c10Params) func(c *fw.Ctx, name string) explore.Setup {
 					cl.startTick = st.tick
 					cl.started = true
 					switch op {
-					case "R1", "R3", "RC", "RE", "R0", "RN", "RP", "RK", "RL":
+					case "R1", "R3", "RC", "RE", "R0", "RN", "RP", "RK", "RL", "RF":
 						_, _, cl.err = conn.Read(ctx)
 					case "W1", "WL":
 						cl.err = conn.Write(ctx, websocket.MessageBinary, fill(byte(0xA0+i), 10))
@@ -805,7 +813,7 @@ func c10Scenarios(tier string) []scenario {
 	// and its context live longer than one message under context takeover)
 	flate := []connCfg{{Client: false, Flate: true, Thr: 1}, {Client: true, Flate: true, Thr: 1}}
 	build("rw", []string{"R1", "R3", "RE", "R0", "W1", "WM"}, []string{"RN", "RP", "RK", "WB", "WL"}, plain)
-	build("rw", []string{"RC", "W1", "WM"}, []string{"RN"}, flate)
+	build("rw", []string{"RC", "W1", "WM"}, []string{"RN", "RF"}, flate)
 	build("pw", []string{"P1", "W1"}, []string{"PN", "WL"}, plain)
 	// a read that waits longer than the library's internal 5 s bounds before a control frame arrives
 	build("rl", []string{"RL", "R1", "W1"}, []string{"RN"}, plain)
